@@ -33,6 +33,8 @@ def make_case(seed: int, tier: str, prop: str, opts=None) -> Dict[str, Any]:
         for c in sc["conns"]:
             if c.get("async") is False:
                 c["async"] = True
+    elif fam == 19 and not force:
+        sc = gen.gen_twopath(seed, tier)
     else:
         sc = gen.gen_core(seed, tier, force=force or None,
                           transport_mix=opts.get("transport_mix", "mixed"))
